@@ -38,9 +38,11 @@ def regionTable (fh : File) (off : Nat) : Except Err (List RegionEntry) := do
   if sig ≠ "regi".toUTF8.toList then throw .format
   let n ← fh.field off hs region_table_header.entry_count
   let es := region_table_entry.size
+  -- cstruct array read: EOFError when the file is short. (Stated up front: the entry loop below would report the same
+  -- error at its first entry beyond the file; this keeps the model cheap for a count of 2^32 − 1.)
+  if off + hs + n * es > fh.size then throw .eof
   (List.range n).mapM fun i => do
     let base := off + hs + i * es
-    -- cstruct array read: EOFError when the file is short
     let guid ← fh.chars base es region_table_entry.guid.1 region_table_entry.guid.2
     let fo ← fh.field base es region_table_entry.file_offset
     let len ← fh.field base es region_table_entry.length
